@@ -1,8 +1,8 @@
 """Setting up a surrogate-outcome transport problem (Correa & Bareinboim 2020): which variables get a transport node, the transport
 diagram of a source domain, and the query handed to TRSO.  PARSED and compared as terms; never imported or executed."""
 
-from y0.algorithm.transport import TARGET_DOMAIN, TransportQuery, activate_domain_and_interventions, create_transport_diagram, get_nodes_to_transport, transport_variable
-from y0.dsl import Distribution, Fraction, One, PopulationProbability, Probability, Product, Sum
+from y0.algorithm.transport import _TRANSPORT_PREFIX, TARGET_DOMAIN, TransportQuery, activate_domain_and_interventions, create_transport_diagram, get_nodes_to_transport, transport_variable
+from y0.dsl import CounterfactualVariable, Distribution, Fraction, Intervention, Variable, One, PopulationProbability, Probability, Product, Sum
 from y0.graph import NxMixedGraph
 
 
@@ -76,3 +76,15 @@ def intervened_term(self, variables):
     # a probability term under do(variables): the WHOLE distribution -- outcome variables and conditioning set alike -- moves into that world,
     # rebuilt as the same kind of term (same population)
     return self._new(self.distribution.intervene(variables))
+
+
+def selection_node(node):
+    # a selection (transport) node is a plain variable whose name BEGINS WITH the marker transport_variable() prepends -- the reader's test is the
+    # writer's construction read backwards; nothing else about the name is looked at (the transported variable's own name may contain the marker)
+    return not isinstance(node, (CounterfactualVariable, Intervention)) and node.name.startswith(_TRANSPORT_PREFIX)
+
+
+def selection_node_of(variable):
+    if isinstance(variable, (CounterfactualVariable, Intervention)):
+        raise TypeError
+    return Variable(_TRANSPORT_PREFIX + variable.name)
